@@ -6,6 +6,9 @@
 (*   padded     the same message with its trailing zero bytes NOT removed     *)
 (*   extended   full payload followed by bytes beyond the known fields        *)
 (*   unknown    a message id the dialect does not contain                     *)
+(*   empty      a message of the dialect sent with NO payload bytes at all    *)
+(*              (every field zero; a sender may drop all of them): decoded,   *)
+(*              and what a reader handed out before must not change with it   *)
 (*   forged_pad / forged_ext   a canon frame altered AFTER signing: payload   *)
 (*              lengthened (zeros / unknown bytes), length and checksum put   *)
 (*              right again, signature block kept - must never be delivered   *)
@@ -32,7 +35,7 @@ Picked == {Nth(Cands, Seed * 7), Nth(Cands, Seed * 7 + 31), Nth(Cands, Seed * 13
 
 UnknownId == CHOOSE id \in 70000..70300 : \A k \in 1..Len(Dl) : Defs[Dl[k]].id # id
 
-Shapes == {"canon", "padded", "extended", "forged_pad", "forged_ext"}
+Shapes == {"canon", "padded", "extended", "empty", "forged_pad", "forged_ext"}
 
 Init == st \in ({[kind |-> "canon", k |-> k, ti |-> ti] : k \in Picked, ti \in 1..Len(TS)}
                 \cup {[kind |-> s, k |-> k, ti |-> 4] : s \in Shapes \ {"canon"}, k \in Picked}
@@ -65,6 +68,7 @@ Vec ==
         f == CASE st.kind = "canon" -> mk(full)
                [] st.kind = "padded" -> mk(zeroTail)
                [] st.kind = "extended" -> mk(full \o <<9, 8, 7>>)
+               [] st.kind = "empty" -> mk(<<>>)
                \* altered after signing: signature block of the canonical frame kept
                [] st.kind = "forged_pad" -> WithCk([canon EXCEPT !.payload = zeroTail], extra)
                [] st.kind = "forged_ext" -> WithCk([canon EXCEPT !.payload = full \o <<5, 6>>], extra)
